@@ -466,6 +466,130 @@ fn slow_decoder_tier(rep: &mut Report, profile: &str) {
     }
 }
 
+/// A decoder that delivers `good` bytes and then fails (an error, or a premature end of its
+/// stream): whatever the views of the content answer must still agree — every view of a range
+/// gives exactly the bytes of that range or an error, the same ranges are readable through every
+/// view, and a stream that got an error has delivered (and counts) nothing for it.
+struct FailReader {
+    data: std::io::Cursor<Vec<u8>>,
+    good: usize,
+    eof: bool,
+}
+
+impl Read for FailReader {
+    fn read(&mut self, buf: &mut [u8]) -> std::io::Result<usize> {
+        let pos = self.data.position() as usize;
+        if pos >= self.good {
+            return if self.eof { Ok(0) } else { Err(std::io::Error::new(std::io::ErrorKind::InvalidData, "scripted decoder failure")) };
+        }
+        let n = buf.len().min(self.good - pos);
+        self.data.read(&mut buf[..n])
+    }
+}
+
+fn failing_decoder_tier(rep: &mut Report, profile: &str) {
+    let l = 20_000usize;
+    let payload = payload_bytes(l);
+    let lead = 11usize;
+    let ranges: Vec<(usize, usize)> = vec![(0, 10), (0, 4000), (4000, 200), (8000, 181), (8100, 200), (12_000, 1), (0, l), (l - 10, 10)];
+    for good in [0usize, 5, 4096, 8192, 8192 + 2000, 16_384 + 5] {
+        for eof in [false, true] {
+            let case = json!({"engine":"viewmc","source":"DecoderFailing","L":l,"good_bytes":good,"ends":if eof {"early end of stream"} else {"error"},"profile":profile});
+            let _g = jbkmc::watchdog::guard(|| case.to_string());
+            let id = format!("DecoderFailing:{good}:{eof}");
+            let r = jbkmc::catch(|| -> Result<usize, Fail> {
+                let mut all = jbkmc::gen::payload(lead, Entropy::High, 1);
+                all.extend_from_slice(&payload);
+                all.extend_from_slice(&jbkmc::gen::payload(9, Entropy::High, 2));
+                let total = all.len();
+                let region = jbk::verif::region_in_decoder(FailReader { data: std::io::Cursor::new(all), good, eof }, total, lead as u64, l as u64);
+                // wait for the decoder to give up: a read of the very last byte must fail
+                let mut last = [0u8; 1];
+                if region.cut(jbk::Offset::new(l as u64 - 1), jbk::Size::new(1)).stream().read_exact(&mut last).is_ok() {
+                    return Err(Fail { key: "failing decoder: the last byte is delivered although the decoder never produced it".into(), what: format!("good={good}") });
+                }
+                let mut readable = 0usize;
+                for (o, n) in &ranges {
+                    let (o, n) = (*o, *n);
+                    let want = &payload[o..o + n];
+                    // view 1: slice of the region
+                    let v1 = region.get_slice(jbk::Offset::new(o as u64), n).map(|c| c.to_vec()).map_err(|e| e.to_string());
+                    // view 2: slice of a cut
+                    let v2 = region.cut(jbk::Offset::new(o as u64), jbk::Size::new(n as u64)).get_slice(jbk::Offset::zero(), n).map(|c| c.to_vec()).map_err(|e| e.to_string());
+                    // view 3: read_exact on the stream of the cut
+                    let mut b3 = vec![0u8; n];
+                    let v3 = region.cut(jbk::Offset::new(o as u64), jbk::Size::new(n as u64)).stream().read_exact(&mut b3).map(|_| b3).map_err(|e| e.to_string());
+                    // view 4: stream of the region made from the cut, read to its end
+                    let r4: ByteRegion = region.cut(jbk::Offset::new(o as u64), jbk::Size::new(n as u64)).into();
+                    let mut b4 = vec![];
+                    let v4 = jbk::reader::ByteStream::from(r4).read_to_end(&mut b4).map(|_| b4).map_err(|e| e.to_string());
+                    let views = [("region.get_slice", &v1), ("cut.get_slice", &v2), ("cut.stream().read_exact", &v3), ("ByteStream::from(region).read_to_end", &v4)];
+                    for (name, v) in &views {
+                        if let Ok(bytes) = v {
+                            if &bytes[..] != want {
+                                return Err(Fail { key: format!("failing decoder: {name} answers Ok with something else than the bytes of the range"), what: format!("good={good} range ({o},{n}): {} bytes returned", bytes.len()) });
+                            }
+                        }
+                    }
+                    let oks = views.iter().filter(|(_, v)| v.is_ok()).count();
+                    if oks != 0 && oks != views.len() {
+                        let who: Vec<String> = views.iter().map(|(name, v)| format!("{name}: {}", if v.is_ok() { "Ok" } else { "Err" })).collect();
+                        return Err(Fail { key: "failing decoder: the views of one range disagree on whether it can be read".into(), what: format!("good={good} range ({o},{n}): {}", who.join(", ")) });
+                    }
+                    if oks != 0 {
+                        readable += 1;
+                    }
+                }
+                // a stream that meets the failure: what it delivered before stays counted, the
+                // failed read counts for nothing, and it can go on reading what is there
+                let mut s = region.stream();
+                let first = good.saturating_sub(lead).min(3000) / 2;
+                let mut b = vec![0u8; first];
+                if first > 0 {
+                    s.read_exact(&mut b).map_err(|e| Fail { key: "failing decoder: bytes decoded before the failure cannot be streamed".into(), what: format!("good={good}: read_exact({first}): {e}") })?;
+                    if b[..] != payload[..first] {
+                        return Err(Fail { key: "failing decoder: stream yields other bytes".into(), what: format!("good={good} first {first} bytes") });
+                    }
+                }
+                let mut rest = vec![0u8; l - first];
+                let failed = s.read(&mut rest);
+                match failed {
+                    Err(_) => {
+                        if s.offset() != first as u64 || s.size_left() != (l - first) as u64 {
+                            return Err(Fail { key: "failing decoder: a failed read moves the stream".into(), what: format!("good={good}: after {first} bytes delivered and one failed read offset()={} size_left()={}", s.offset(), s.size_left()) });
+                        }
+                        if first > 0 {
+                            // the bytes right after the delivered ones are there (first is half of what is)
+                            let mut c = vec![0u8; first.min(10)];
+                            s.read_exact(&mut c).map_err(|e| Fail { key: "failing decoder: the stream cannot go on after a failed read".into(), what: format!("good={good}: {e}") })?;
+                            if c[..] != payload[first..first + c.len()] {
+                                return Err(Fail { key: "failing decoder: stream yields other bytes after a failed read".into(), what: format!("good={good} at {first}") });
+                            }
+                        }
+                    }
+                    Ok(k) => {
+                        if k == 0 || rest[..k] != payload[first..first + k] || s.offset() != (first + k) as u64 {
+                            return Err(Fail { key: "failing decoder: a partial read yields other bytes or a wrong offset".into(), what: format!("good={good}: read returned {k}, offset()={}", s.offset()) });
+                        }
+                    }
+                }
+                Ok(readable)
+            });
+            match r {
+                Ok(Ok(n)) => rep.case(Some(&id), if n > 1 { "agree(failing decoder, some ranges readable)" } else { "agree(failing decoder, nothing readable)" }),
+                Ok(Err(f)) => {
+                    rep.case(Some(&id), "violation");
+                    rep.violation(&format!("C13 {} [DecoderFailing]", f.key), &f.what, case);
+                }
+                Err(p) => {
+                    rep.case(Some(&id), "panic");
+                    rep.violation(&format!("C13 panic {} [DecoderFailing]", jbkmc::panic_site(&p)), &p, case);
+                }
+            }
+        }
+    }
+}
+
 /// Two views of one file-backed source read alternately. Distances are taken around the
 /// constants of the code (1024 = BufReader capacity, 4096 = chunk / mmap threshold).
 fn interleave_tier(rep: &mut Report, dir: &std::path::Path, profile: &str, thorough: bool) {
@@ -559,7 +683,7 @@ fn main() {
     let mut rep = Report::new(
         "viewmc",
         "C13",
-        "payloads of length L in 0..5 (quick) / 0..8 (thorough), never at offset 0 of their source, followed by other bytes or ending exactly at the end of the source, on 8 source kinds (Vec, file uncut, file cut <4 KiB, file cut >=4 KiB mmap, background decoder identity and zstd, content #2 of a raw and of a compressed cluster through the container API); every chain of nested cuts (o1,s1) >= (o2,s2) >= (o3,s3) up to depth 3; on every view: size(), get_slice of every sub-range on the slice and on the converted region, and 4 stream conversion paths x every composition of the length into read sizes with size()/offset()/size_left() after every read, a zero-length read before every read and at the end (returns 0, moves nothing) and an over-long read at the end, and the same walk with read_exact for every part but the last and read_to_end for the rest; plus one 5000-byte payload per source with a reduced cut set and one 70000-byte payload per source with slices and reads of 65535/65536/65537+ bytes on the region, a slice, a nested slice and the region made from it; one 6 MiB incompressible content stored compressed (stored cluster above 4 MiB) in a file-backed pack; contents of 1..9 bytes alone in a zstd/lz4/lzma cluster (cuts to depth 2); a 6-byte content as blob 2050 and 4094 of a raw and of a compressed cluster; a decoder scripted to stall after its first 4096 bytes with the first access deep in the data; two views of one source read alternately (all 6 interleavings of 2+2 reads) at distances {0,10,1023,1024,1025,2048,4096} x read sizes {1,10,1023,1024}; non-trivial = view of at least one byte; distinct by (source, L, chain)",
+        "payloads of length L in 0..5 (quick) / 0..8 (thorough), never at offset 0 of their source, followed by other bytes or ending exactly at the end of the source, on 8 source kinds (Vec, file uncut, file cut <4 KiB, file cut >=4 KiB mmap, background decoder identity and zstd, content #2 of a raw and of a compressed cluster through the container API); every chain of nested cuts (o1,s1) >= (o2,s2) >= (o3,s3) up to depth 3; on every view: size(), get_slice of every sub-range on the slice and on the converted region, and 4 stream conversion paths x every composition of the length into read sizes with size()/offset()/size_left() after every read, a zero-length read before every read and at the end (returns 0, moves nothing) and an over-long read at the end, and the same walk with read_exact for every part but the last and read_to_end for the rest; plus one 5000-byte payload per source with a reduced cut set and one 70000-byte payload per source with slices and reads of 65535/65536/65537+ bytes on the region, a slice, a nested slice and the region made from it; one 6 MiB incompressible content stored compressed (stored cluster above 4 MiB) in a file-backed pack; contents of 1..9 bytes alone in a zstd/lz4/lzma cluster (cuts to depth 2); a 6-byte content as blob 2050 and 4094 of a raw and of a compressed cluster; a decoder scripted to stall after its first 4096 bytes with the first access deep in the data; a decoder scripted to fail (error / early end) after 0, 5, 4096, 8192, 10192 or 16389 bytes: every view of 8 ranges answers the bytes of the range or an error, all four views of a range agree on which, a failed stream read moves nothing and the stream goes on; two views of one source read alternately (all 6 interleavings of 2+2 reads) at distances {0,10,1023,1024,1025,2048,4096} x read sizes {1,10,1023,1024}; non-trivial = view of at least one byte; distinct by (source, L, chain)",
     );
     rep.extra.insert("profile".into(), json!(profile));
     let dir = jbkmc::scratch_dir("view");
@@ -763,6 +887,7 @@ fn main() {
         alone_tier(&mut rep, dir.path(), profile);
         deep_tier(&mut rep, dir.path(), profile);
         slow_decoder_tier(&mut rep, profile);
+        failing_decoder_tier(&mut rep, profile);
         interleave_tier(&mut rep, dir.path(), profile, t);
     }
     rep.finish(&args)
